@@ -74,7 +74,11 @@ func NewLexer(source []rune) *Lexer {
 
 // Next - return current rune, and move forward the cursor for 1 character.
 func (l *Lexer) Next() rune {
-	l.cursor += 1
+	// the cursor never moves beyond the end of the source (positions reported in errors
+	// and the line table are indexes into the source)
+	if l.cursor < len(l.Source) {
+		l.cursor += 1
+	}
 
 	// still no data, return EOF directly
 	return l.getChar(l.cursor)
